@@ -49,10 +49,13 @@ variable {σ : Type}
 def putW (d : Design σ) (s : State σ) (wv : Nat × Int) : State σ :=
   { s with val := upd s.val wv.1 (Gen.Wire.put (d.width wv.1) wv.2).toNat }
 
+/-- value stored in `Wire.next` by `prepare`; the generated code sees whether the wire is already in `Wire.prepared` -/
+def prepVal (d : Design σ) (s : State σ) (wv : Nat × Int) : Nat :=
+  (Gen.Wire.prepare (d.width wv.1) (if wv.1 ∈ s.prepared then 1 else 0) wv.2).toNat
+
 /-- `Wire.prepare` -/
 def prepW (d : Design σ) (s : State σ) (wv : Nat × Int) : State σ :=
-  { s with nxt := upd s.nxt wv.1 (Gen.Wire.prepare (d.width wv.1) wv.2).toNat,
-           prepared := s.prepared ++ [wv.1] }
+  { s with nxt := upd s.nxt wv.1 (prepVal d s wv), prepared := s.prepared ++ [wv.1] }
 
 /-- call `propagate()` of leaf `k` -/
 def propLeaf (d : Design σ) (s : State σ) (k : Nat) : State σ :=
